@@ -67,6 +67,7 @@ type Contract struct {
 	Handler  bool // message handler: state effects on error paths are discarded (reverted tx)
 	Props    []string
 	Note     string
+	Impl     string // interface-method contract: the one repository implementation every call dispatches to (closed world, checked)
 }
 
 type Macro struct {
@@ -460,6 +461,11 @@ func (sp *Spec) LoadContractFile(path, defaultPkg string) error {
 			c.Handler = true
 		case "props":
 			c.Props = append(c.Props, strings.Fields(rest)...)
+		case "impl":
+			if err := need(); err != nil {
+				return err
+			}
+			c.Impl = qualifyFunc(rest, imports, defaultPkg)
 		case "note":
 			if c.Note != "" {
 				c.Note += " | "
